@@ -60,7 +60,7 @@ CHECKS = {
          'Sequences of valid, malformed, unreadable and duplicate-carrying transactions delivered to the real Observer; one CAS read failure or store failure per run, enumerated over every file of every transaction and every Put; the recorded store writes must be exactly one stamped, duplicate-free Put per processable transaction. DocumentHandler.ProcessOperation sequences with an unpublished-store or writer failure at every call index must leave exactly the accepted operations in queue and unpublished store.',
          'Duplicate-carrying transactions come from a stub provider (the real provider refuses them); quick tier samples 8 fault positions per sequence, thorough enumerates all.', 'DESIGN.md 5/C15, A.3'),
  'C16': ('fault_enumeration', 'deterministic scheduler over the verif step hook + write-fault enumeration + offline event-log checker E1-E6; concurrent stress under the Go race detector with porcupine linearizability check of the queue boundary',
-         'Mode A: the harness, not tickers, chooses ticks, the yield point (nine per batch) at which each concurrent Add lands and which CAS / anchor write fails; an exhaustive 3-operation family and tens of thousands to millions of PRNG schedules, each log checked for exactly-once anchoring, FIFO/nack-to-head, batch size, version purity, undersized-batch rule (under the MaxOperationCount of the protocol version current at each cut, with a protocol upgrade during a quarter of the runs), re-queue of deferred operations and bounded drain; a slice uses the real OperationHandler (also with not-yet-valid operations on a virtual clock: rolled back until valid, then anchored once). Mode B: real Start() with millisecond tickers and 2-8 adders under -race; porcupine checks the recorded queue history against a sequential queue model.',
+         'Mode A: the harness, not tickers, chooses ticks, the yield point (nine per batch) at which each concurrent Add lands and which CAS / anchor write or protocol-client lookup fails; an exhaustive 3-operation family and tens of thousands to millions of PRNG schedules, each log checked for exactly-once anchoring, FIFO/nack-to-head, batch size, version purity, undersized-batch rule (under the MaxOperationCount of the protocol version current at each cut, with a protocol upgrade during a quarter of the runs), re-queue of deferred operations and bounded drain; a slice feeds the writer through DocumentHandler.ProcessOperation with version times that are not genesis times; another slice uses the real OperationHandler (also with not-yet-valid operations on a virtual clock: rolled back until valid, then anchored once). Mode B: real Start() with millisecond tickers and 2-8 adders under -race; porcupine checks the recorded queue history against a sequential queue model.',
          'Crash points are failed CAS/anchor writes (a process crash after a successful anchor is at-least-once by construction and outside the statement); Mode B quiescence uses a generous wall-clock watchdog whose firing is inconclusive.', 'DESIGN.md 5/C16, A.2, D.4'),
  'C19': ('exploration', 'independent projection monitor with retained-result re-check (aliasing across transformations) and a slice through DocumentHandler.ResolveDocument; shared transformer instances driven from goroutines under the Go race detector',
          'Generated internal documents over every key type x purpose subset, material encodings, services, aliases; random resolution models and transformer options; each transformer instance serves many documents sequentially and from goroutines and every result is re-verified after all later calls.',
